@@ -23,7 +23,7 @@ try:
             print('%-40s DOES-NOT-COMPILE %s' % (name, c.stdout.decode()[-200:].replace('\n', ' '))); continue
         bad = []
         for pid in claimed:
-            c = subprocess.run([V + '/bin/check', pid, '--repo', work], stdout=subprocess.PIPE, stderr=subprocess.STDOUT)
+            c = subprocess.run([V + '/bin/check', pid, '--repo', work, '--evidence-dir', os.path.join(base, 'ev')], stdout=subprocess.PIPE, stderr=subprocess.STDOUT)
             if c.returncode != 0:
                 out = c.stdout.decode()
                 bad.append((pid, c.returncode, sorted(set(re.findall(r'violated (\S+) in', out))) or re.findall(r'ANALYSIS-BROKEN property=\S+ (.{0,140})', out)[:2]))
